@@ -33,6 +33,8 @@ PA2 == Pod("ns1", "a-x2", "a", L1("app", "a"), <<CP("http", "TCP", 2)>>)
 PB  == Pod("ns2", "b-x1", "b", L1("app", "b"), <<>>)
 PBv == Pod("ns2", "b-x1", "b", L1("app", "a"), <<>>)          \* same pod, relabelled
 PC  == Pod("ns2", "c", "", L1("app", "a"), <<CP("http", "UDP", 2)>>)
+PA1p == Pod("ns1", "a-x1", "a", L1("app", "a"), <<CP("http", "UDP", 2)>>)   \* same pod, same labels, its named port re-declared
+PA3  == Pod("ns1", "a-x3", "a", L1("app", "a"), <<CP("web", "TCP", 2)>>)    \* a sibling of the same owner and labels whose template differs
 
 Blk(lo, hi) == [all |-> FALSE, lo |-> lo, hi |-> hi]
 PodPeer(nsNil, ns, podNil, pod) ==
@@ -81,7 +83,8 @@ OpsFull ==
     [op |-> "InsNs", nso |-> Ns("ns2", L1("team", "x"))], [op |-> "InsNs", nso |-> Ns("ns2", NoL)],
     [op |-> "DelNs", name |-> "ns1"], [op |-> "DelNs", name |-> "ns2"],
     [op |-> "InsPod", pod |-> PA1], [op |-> "InsPod", pod |-> PA2], [op |-> "InsPod", pod |-> PB],
-    [op |-> "InsPod", pod |-> PBv], [op |-> "InsPod", pod |-> PC],
+    [op |-> "InsPod", pod |-> PBv], [op |-> "InsPod", pod |-> PC], [op |-> "InsPod", pod |-> PA1p], [op |-> "InsPod", pod |-> PA3],
+    [op |-> "DelPod", ns |-> "ns1", name |-> "a-x3"],
     [op |-> "DelPod", ns |-> "ns1", name |-> "a-x1"], [op |-> "DelPod", ns |-> "ns1", name |-> "a-x2"],
     [op |-> "DelPod", ns |-> "ns2", name |-> "b-x1"], [op |-> "DelPod", ns |-> "ns2", name |-> "c"],
     [op |-> "DelPod", ns |-> "ns2", name |-> "nosuch"],
@@ -99,9 +102,9 @@ OpsFull ==
 OpsSmall ==
   { [op |-> "InsNs", nso |-> Ns("ns1", L1("team", "y"))], [op |-> "DelNs", name |-> "ns1"],
     [op |-> "InsNs", nso |-> Ns("ns2", L1("team", "x"))], [op |-> "DelNs", name |-> "ns2"],
-    [op |-> "InsPod", pod |-> PBv], [op |-> "DelPod", ns |-> "ns2", name |-> "b-x1"],
+    [op |-> "InsPod", pod |-> PBv], [op |-> "DelPod", ns |-> "ns2", name |-> "b-x1"], [op |-> "InsPod", pod |-> PA1p], [op |-> "InsPod", pod |-> PA3],
     [op |-> "DelPod", ns |-> "ns1", name |-> "a-x1"], [op |-> "DelPod", ns |-> "ns2", name |-> "nosuch"],
-    [op |-> "InsNP", np |-> NP3], [op |-> "InsNP", np |-> NP1v], [op |-> "DelNP", ns |-> "ns1", name |-> "np1"],
+    [op |-> "DelNP", ns |-> "ns1", name |-> "np3"], [op |-> "InsNP", np |-> NP1v], [op |-> "DelNP", ns |-> "ns1", name |-> "np1"],
     [op |-> "InsANP", anp |-> ANPB], [op |-> "InsANP", anp |-> ANPC], [op |-> "InsANP", anp |-> ANPAv], [op |-> "DelANP", name |-> "anp-a"],
     [op |-> "InsBANP", banp |-> BANPD], [op |-> "DelBANP", name |-> "default"], O("Sweep") }
 
@@ -110,7 +113,7 @@ Ops == IF Small THEN OpsSmall ELSE OpsFull
 (* the fixed prefix: a populated engine with a warm cache *)
 Prefix == << [op |-> "InsNs", nso |-> Ns("ns1", L1("team", "x"))], [op |-> "InsNs", nso |-> Ns("ns2", L1("team", "y"))],
              [op |-> "InsPod", pod |-> PA1], [op |-> "InsPod", pod |-> PA2], [op |-> "InsPod", pod |-> PB], [op |-> "InsPod", pod |-> PC],
-             [op |-> "InsNP", np |-> NP1], [op |-> "InsNP", np |-> NP2], [op |-> "InsANP", anp |-> ANPA], O("Sweep") >>
+             [op |-> "InsNP", np |-> NP1], [op |-> "InsNP", np |-> NP2], [op |-> "InsNP", np |-> NP3], [op |-> "InsANP", anp |-> ANPA], O("Sweep") >>
 
 RECURSIVE ApplyAll(_, _)
 ApplyAll(c, ops) == IF ops = <<>> THEN c
